@@ -68,6 +68,9 @@ CHECKS = {
  "C06": (MC, "exhaustive enumeration of small task programs over the yield vocabulary x environment choices on the real Scheduler.run() with an inline select hub under a virtual clock (E-seq), controlled-thread exploration of representative programs with the threaded hub (E-thr), and EpollSelect vs select.select on real sockets",
          "Part 1: every ordered pair (thorough: triple) of task scripts over {reschedule, sleep, block+wake by sibling, Select with/without timeout, sub-task call in four shapes, Exit, raise, timers one-shot/recurring/cancelled/self-stopping} with fd readiness instants, the scheduler's priority coin and per-step virtual time as explored choices; invariants on the recorded (task, step, time) trace incl. a differential twin without the raising task. Part 2: ten programs under the threaded hub, every schedule within 2 deviations.",
          "Virtual select ends the run at an explicit horizon; modelled primitives of mc/thr.py; GIL atomicity.", "DESIGN.md 4 C06"),
+ "C20": (MC, "E-seq exploration of per-call socket outcomes on the switch-side worker inside a hand-driven RecocoIOLoop, and controlled-thread exploration (E-thr) of the controller's real Connection.send against the real DeferredSender.run loop with socket outcomes as explored choices",
+         "Part 1: three messages queued with send / send_fast in every interleaving with loop iterations, every script of socket outcomes {accept all, 1, n-1, EAGAIN, EPIPE} within 2 (3) deviations, with and without a final close. Part 2: cooperative thread sending m1..m3 on one or two connections while the deferred sender thread flushes, optional EOF/close by the I/O loop; every thread schedule and socket script within separately bounded deviations at line granularity in of_01.py. Oracle: bytes accepted == prefix of the concatenation in order, complete at quiescence unless a fatal error occurred; no send after a fatal error; close / ConnectionDown exactly once; no thread dies.",
+         "Modelled primitives of mc/thr.py; fake sockets always writable; bytecode granularity not used (CPython 3.12.1 crashes under per-instruction tracing across threads).", "DESIGN.md 4 C20"),
 }
 
 PENDING_REASON = "check under construction in this round (design in DESIGN.md section 4); not claimed until its harness is committed and silent on the unchanged tree"
